@@ -35,8 +35,12 @@ func (e *Exec) uf(name string, nargs int) {
 		return
 	}
 	e.ufs[name] = true
-	args := strings.TrimSpace(strings.Repeat(sortFP+" ", nargs))
-	e.sol.Send("(declare-fun " + name + " (" + args + ") " + sortFP + ")")
+	srt := sortFP
+	if e.relaxed {
+		srt = "Real"
+	}
+	args := strings.TrimSpace(strings.Repeat(srt+" ", nargs))
+	e.sol.Send("(declare-fun " + name + " (" + args + ") " + srt + ")")
 }
 
 func (e *Exec) libm(name string, f func(float64) float64, a Float) Float {
@@ -45,7 +49,7 @@ func (e *Exec) libm(name string, f func(float64) float64, a Float) Float {
 	}
 	e.stubs["math."+name+": uninterpreted function (purity only)"] = true
 	e.uf("uf_"+name, 1)
-	return e.nmF(Float{Sym: "(uf_" + name + " " + a.T() + ")"})
+	return e.nmF(Float{Sym: "(uf_" + name + " " + e.fT(a) + ")"})
 }
 
 // provable: c is implied by the path condition.  The answer is remembered in the decision
@@ -89,16 +93,16 @@ func (e *Exec) intrinsic(fn *ssa.Function, name string, args []Value) (Value, bo
 		}
 		e.stubs["math.Pow (general): uninterpreted function"] = true
 		e.uf("uf_pow", 2)
-		return e.nmF(Float{Sym: "(uf_pow " + x.T() + " " + y.T() + ")"}), true
+		return e.nmF(Float{Sym: "(uf_pow " + e.fT(x) + " " + e.fT(y) + ")"}), true
 	case "math.Floor":
-		return e.nmF(fUn("floor", args[0].(Float))), true
+		return e.fUnX("floor", args[0].(Float)), true
 	case "math.Ceil":
-		return e.nmF(fUn("ceil", args[0].(Float))), true
+		return e.fUnX("ceil", args[0].(Float)), true
 	case "math.Sqrt":
 		return e.nmF(fUn("sqrt", args[0].(Float))), true
 	case "math.Abs":
 		a := args[0].(Float)
-		r := fUn("abs", a)
+		r := e.fUnX("abs", a)
 		if a.FromInt != nil && a.FromInt.Signed && a.FromInt.W == 64 {
 			n := *a.FromInt
 			if e.provable(iCmp("!=", n, mkI64(math.MinInt64))) {
@@ -136,7 +140,7 @@ func (e *Exec) intrinsic(fn *ssa.Function, name string, args []Value) (Value, bo
 		}
 		e.stubs["math.Mod(a, 2^n) for integer-valued 0 <= a < 2^53: exact integer remainder (fmod is exact)"] = true
 		m := iBin("-", iShift(true, mkI64(1), n), mkI64(1))
-		return iToF(e.nmI(iBin("&", ai, m))), true
+		return e.iToFX(e.nmI(iBin("&", ai, m))), true
 	case "math.Log":
 		return e.libm("log", math.Log, args[0].(Float)), true
 	case "math.Tan":
@@ -157,11 +161,14 @@ func (e *Exec) intrinsic(fn *ssa.Function, name string, args []Value) (Value, bo
 			return mkFloat(math.Hypot(a.C, b.C)), true
 		}
 		e.uf("uf_hypot", 2)
-		return e.nmF(Float{Sym: "(uf_hypot " + a.T() + " " + b.T() + ")"}), true
+		return e.nmF(Float{Sym: "(uf_hypot " + e.fT(a) + " " + e.fT(b) + ")"}), true
 	case "math.IsNaN":
 		a := args[0].(Float)
 		if a.IsC {
 			return mkBool(a.C != a.C), true
+		}
+		if e.relaxed {
+			return mkBool(false), true
 		}
 		return symBool("(fp.isNaN " + a.Sym + ")"), true
 	case "math.IsInf":
@@ -332,9 +339,9 @@ func (e *Exec) intrinsic(fn *ssa.Function, name string, args []Value) (Value, bo
 			for i := 0; i < sl.Len; i++ {
 				for j := 0; j+1 < sl.Len-i; j++ {
 					a, b := arr.E[sl.Off+j].(Float), arr.E[sl.Off+j+1].(Float)
-					c := fCmp("<=", a, b)
-					arr.E[sl.Off+j] = e.nmF(fIte(c, a, b))
-					arr.E[sl.Off+j+1] = e.nmF(fIte(c, b, a))
+					c := e.fCmpX("<=", a, b)
+					arr.E[sl.Off+j] = e.fIteX(c, a, b)
+					arr.E[sl.Off+j+1] = e.fIteX(c, b, a)
 				}
 			}
 		}
@@ -426,6 +433,11 @@ func (e *Exec) splitChars(s Str) []Str {
 func (e *Exec) addInput(in *InputVar) { e.inputs = append(e.inputs, in) }
 
 func (e *Exec) harnessPrim(name string, args []Value) (Value, bool) {
+	if strings.HasPrefix(name, "vR") {
+		if r, ok := e.realPrim(name, args); ok {
+			return r, true
+		}
+	}
 	switch name {
 	case "vCase":
 		n := e.strArg(args[0], "vCase name")
@@ -483,9 +495,28 @@ func (e *Exec) harnessPrim(name string, args []Value) (Value, bool) {
 			return mkFloat(f), true
 		}
 		sym := "in_" + sanitize(n)
+		if e.relaxed {
+			e.declare(sym, "Real")
+			e.addInput(&InputVar{Name: n, Kind: "real", Sym: sym})
+			return Float{Sym: sym}, true
+		}
 		e.declare(sym, sortBV(64))
 		e.addInput(&InputVar{Name: n, Kind: "float64", Sym: sym})
 		return Float{Sym: "((_ to_fp 11 53) " + sym + ")"}, true
+	case "vFloatRange": // vFloatRange(f, lo, hi): checks lo <= f <= hi and lets the relaxed encoding use the enclosure
+		f := args[0].(Float)
+		lo, hi := args[1].(Float), args[2].(Float)
+		if !lo.IsC || !hi.IsC {
+			e.unsupported("vFloatRange needs concrete bounds")
+		}
+		if e.concrete != nil || f.IsC {
+			return f, true
+		}
+		e.obligation(bAnd(e.fCmpX("<=", lo, f), e.fCmpX("<=", f, hi)), "declared float enclosure holds", "ghost")
+		if e.relaxed {
+			f.HasIv, f.Lo, f.Hi = true, lo.C, hi.C
+		}
+		return f, true
 	case "vNondetBool":
 		n := e.strArg(args[0], "nondet name")
 		if e.concrete != nil {
